@@ -271,7 +271,8 @@ theorem getNextTagOrComment_sim (ctx : Ctx) : PosOnly Eq (getNextTagOrComment ct
       simp only [setTokenpos_bind]
       exact Sim.pure rfl rfl
 
-def SameSome {α : Type} : Option α → Option α → Prop := fun a b => a.isSome = b.isSome
+/-- both absent, or both present with the same tag -/
+def SameSome : Option (TItem Gen) → Option (TItem Gen) → Prop := fun a b => a.map (·.tag) = b.map (·.tag)
 
 def PosOnlyD (d : List Char → Option (Bool × (Ctx → PM Gen))) (e : Env) : Prop :=
   ∀ tag b p, d tag = some (b, p) → ∀ ctx, PosOnly Any (p ctx) e
@@ -349,16 +350,29 @@ theorem taggedItem_sim {d : List Char → Option (Bool × (Ctx → PM Gen))} (hd
     simp only [setTokenpos_bind]
     exact Sim.pure rfl rfl
 
-theorem tsLoop_sim {d : List Char → Option (Bool × (Ctx → PM Gen))} (hd : PosOnlyD d e) (ctx : Ctx) :
-    ∀ fuel acc acc' (s t : PState), s.pos = t.pos → Sim Any (tsLoop d ctx fuel acc e s) (tsLoop d ctx fuel acc' e t)
-  | 0, _, _, _, _, _ => trivial
-  | fuel + 1, acc, acc', s, t, hp => by
+theorem any_tag_eq (acc : List (TItem Gen)) (tag : List Char) :
+    acc.any (fun x => x.tag = tag) = (acc.map (·.tag)).any (fun x => x = tag) := by
+  induction acc with
+  | nil => rfl
+  | cons a l ih => simp only [List.any_cons, List.map_cons, ih]
+
+theorem tsLoop_sim {d : List Char → Option (Bool × (Ctx → PM Gen))} (hd : PosOnlyD d e) (rep : List Char → Bool)
+    (ctx : Ctx) : ∀ fuel acc acc' (s t : PState), s.pos = t.pos → acc.map (·.tag) = acc'.map (·.tag) →
+    Sim Any (tsLoop d rep ctx fuel acc e s) (tsLoop d rep ctx fuel acc' e t)
+  | 0, _, _, _, _, _, _ => trivial
+  | fuel + 1, acc, acc', s, t, hp, hacc => by
     rw [tsLoop, tsLoop]
     refine Sim.bind (taggedItem_sim hd ctx s t hp) ?_
     intro a b s1 t1 hab hp1
     cases a <;> cases b <;> first | cases hab | skip
     · exact Sim.pure trivial hp1
-    · exact tsLoop_sim hd ctx fuel _ _ s1 t1 hp1
+    · rename_i ita itb
+      have htag : ita.tag = itb.tag := by simpa [SameSome] using hab
+      dsimp only
+      rw [any_tag_eq acc, any_tag_eq acc', hacc, htag]
+      split
+      · exact Sim.fail hp1
+      · exact tsLoop_sim hd rep ctx fuel _ _ s1 t1 hp1 (by simp [hacc, htag])
 
 mutual
 theorem itemP_sim (f32 : List Char → Option (List Char)) : ∀ (sp : Spec) (ctx : Ctx), PosOnly Any (itemP f32 sp ctx) e
@@ -429,7 +443,7 @@ theorem itemP_sim (f32 : List Char → Option (List Char)) : ∀ (sp : Spec) (ct
     intro s t hp
     rw [itemP]
     simp only [getEnv_bind]
-    refine Sim.bind (R := Any) (tsLoop_sim (dispatch_sim f32 items) ctx _ [] [] s t hp) ?_
+    refine Sim.bind (R := Any) (tsLoop_sim (dispatch_sim f32 items) _ ctx _ [] [] s t hp rfl) ?_
     intro _ _ s1 t1 _ hp1
     exact Sim.pure trivial hp1
   | .taggedUnion items, ctx => by
